@@ -3,6 +3,7 @@ package props
 import (
 	"fmt"
 	"go/ast"
+	"go/token"
 	"go/types"
 	"regexp"
 	"strings"
@@ -12,7 +13,7 @@ import (
 
 func init() { Registry["C08"] = runC08 }
 
-const explanationC08 = "Decides structural necessary conditions of C08: (R08.1) projection draws attribute names from the view — projectSingle sets projected attributes only for names ranged from the view object, starts from a copy of the view's type and keeps only required names the view contains; (R08.2) an unknown view is refused — projectSingle returns an error when the view lookup is nil before it dereferences it, and the generated viewed-type validation switches over the defined views (\"\" joined to default) with a default arm that assigns an error; (R08.3) the view name crosses the wire under one header constant on both sides (HTTP and gRPC), and only when the design does not fix the view; (R08.5) the projection memo in projectRecursive is keyed by the view that is actually used to project the nested type; (R08.6) no stale per-iteration state in the view code generators and projections (view overrides, search flags); (R08.7) a view override declared on a view attribute — including an explicit \"default\" — is copied to the projected attribute whenever present, under the ViewMetaKey constant; (R08.8) the view attribute handed to the recursive projection is the view definition's own; (R08.9) every reader of the view Meta key selects the last value; (R08.10) the projection memo key is the full structural hash plus the view name. (R08.11) a nested result type is projected with the view attribute's view, else the type attribute's, else the \"default\" constant, on every path (path table of projectRecursive). NOT decided: wire content for any value and recursion correctness of Project on all type graphs (needs execution)."
+const explanationC08 = "Decides structural necessary conditions of C08: (R08.1) projection draws attribute names from the view — projectSingle sets projected attributes only for names ranged from the view object, starts from a copy of the view's type and keeps only required names the view contains; (R08.2) an unknown view is refused — projectSingle returns an error when the view lookup is nil before it dereferences it, and the generated viewed-type validation switches over the defined views (\"\" joined to default) with a default arm that assigns an error; (R08.3) the view name crosses the wire under one header constant on both sides (HTTP and gRPC), and only when the design does not fix the view; (R08.5) the projection memo in projectRecursive is keyed by the view that is actually used to project the nested type; (R08.6) no stale per-iteration state in the view code generators and projections (view overrides, search flags); (R08.7) a view override declared on a view attribute — including an explicit \"default\" — is copied to the projected attribute whenever present, under the ViewMetaKey constant; (R08.8) the view attribute handed to the recursive projection is the view definition's own; (R08.9) every reader of the view Meta key selects the last value; (R08.10) the projection memo key is the full structural hash plus the view name. (R08.11) a nested result type is projected with the view attribute's view, else the type attribute's, else the \"default\" constant, on every path (path table of projectRecursive). (R08.12) the default view of a result type is synthesized after its user type - and with it the attributes inherited with Extend - has been finalized. NOT decided: wire content for any value and recursion correctness of Project on all type graphs (needs execution)."
 
 func runC08(c *an.Ctx) string {
 	r081Projection(c)
@@ -25,6 +26,7 @@ func runC08(c *an.Ctx) string {
 	metaSelectionAgreement(c, "R08.9", "view")
 	r0810MemoKey(c)
 	r0811NestedView(c, "R08.11")
+	r0812DefaultViewOrder(c, "R08.12")
 	return explanationC08
 }
 
@@ -622,4 +624,71 @@ func r0811NestedView(c *an.Ctx, rule string) {
 		return
 	}
 	c.Okf(rule, f.Name+"#nested-view", "%d paths project a nested result type: each with the view attribute's view, else the type attribute's view, else \"default\"", rows)
+}
+
+// r0812DefaultViewOrder (R08.12): a result type without an explicit "default" view gets one synthesized from its
+// attributes. The attributes inherited with Extend are merged into the type when its user type is finalized, so the
+// synthesis must come after: in ResultTypeExpr.Finalize the receiver's UserTypeExpr.Finalize() dominates the
+// receiver's ensureDefaultView(). The other order leaves the inherited attributes out of the default view - they are
+// part of the type and silently missing from every response rendered with that view.
+func r0812DefaultViewOrder(c *an.Ctx, rule string) {
+	f := c.MustFunc(rule, "expr", "ResultTypeExpr.Finalize")
+	if f == nil {
+		return
+	}
+	info := f.Pkg.TypesInfo
+	g := an.NewCFG(info, f.Decl.Body)
+	var fin, ens []an.Loc
+	var ensPos token.Pos
+	ast.Inspect(f.Decl.Body, func(n ast.Node) bool {
+		call, ok := n.(*ast.CallExpr)
+		if !ok {
+			return true
+		}
+		se, ok := an.Unparen(call.Fun).(*ast.SelectorExpr)
+		if !ok {
+			return true
+		}
+		root := an.RootIdent(se.X)
+		if root == nil || !isReceiver(f, root) {
+			return true
+		}
+		callee := c.FuncOfObj(an.Callee(info, call))
+		if callee == nil {
+			return true
+		}
+		loc, found := g.LocOf(call)
+		if !found {
+			return true
+		}
+		switch c.RefName(callee) {
+		case "expr.ResultTypeExpr.ensureDefaultView":
+			ens = append(ens, loc)
+			ensPos = call.Pos()
+		default:
+			// the finalization of the embedded user type / attribute, whichever type declares the method
+			if strings.HasSuffix(c.RefName(callee), ".Finalize") && strings.Contains(types.ExprString(se.X), "UserTypeExpr") {
+				fin = append(fin, loc)
+			}
+		}
+		return true
+	})
+	if len(ens) == 0 || len(fin) == 0 {
+		c.Add(an.Obligation{Rule: rule, Construct: f.Name + "#order", Status: an.LOST, Nontrivial: true,
+			Detail: fmt.Sprintf("calls on the receiver not found (ensureDefaultView: %d, UserTypeExpr.Finalize: %d)", len(ens), len(fin))})
+		return
+	}
+	ok := true
+	for _, e := range ens {
+		dominated := false
+		for _, fl := range fin {
+			if g.LocDominates(fl, e) && fl != e {
+				dominated = true
+			}
+		}
+		if !dominated {
+			ok = false
+		}
+	}
+	c.Check(ok, rule, f.Name+"#order", ensPos, "the default view is synthesized after the user type (and with it the attributes inherited with Extend) has been finalized", "the default view of the result type is synthesized before its user type is finalized: attributes inherited with Extend are merged later and are missing from the view")
 }
